@@ -70,8 +70,9 @@ class PI:
 
 
 class World:
-    def __init__(self, n):
+    def __init__(self, n, cparams=None):
         self.n = n
+        self.cparams = cparams or {}
 
     def bits(self, adt):
         return self.n * DIGIT_BITS[DIGIT[adt]]
@@ -271,6 +272,8 @@ def ev(t, env, W):
     if k == "CP":
         if t[1] == "N":
             return PI("usize", W.n)
+        if t[1] in W.cparams:
+            return W.cparams[t[1]]
         return OPAQUE
     if k == "F":
         b = ev(t[1], env, W)
@@ -615,6 +618,21 @@ def _prim_atom(name, label, t, env, W):
             return ("Continue", o[1])
         if o == ("None",):
             return ("Break", ("None",))
+        return OPAQUE
+    if label in ("str::is_empty",) or label.startswith("[T]::is_empty"):
+        a = ev(t[2][0], env, W)
+        if isinstance(a, tuple) and a and a[0] in ("arr", "str"):
+            return len(a[1]) == 0
+        return OPAQUE
+    if label == "str::as_bytes" and len(t[2]) == 1:
+        a = ev(t[2][0], env, W)
+        if isinstance(a, tuple) and a and a[0] == "str":
+            return ("arr", a[1])
+        return OPAQUE
+    if label == "core::str::from_utf8" and len(t[2]) == 1:
+        a = ev(t[2][0], env, W)
+        if isinstance(a, tuple) and a and a[0] == "arr" and all(isinstance(d, PI) and d.v < 128 for d in a[1]):
+            return ("Ok", ("str", a[1]))
         return OPAQUE
     if "core::ops::FromResidual<core::option::Option<" in label and label.endswith("::from_residual"):
         return ("None",)
